@@ -46,6 +46,7 @@ def exp_notional(m):
 def case_ops(cs):
     rng = random.Random(cs)
     spec = w5.gen(cs, nd=(4, 10))
+    spec["lazy"] = [False] * len(spec["names"])      # this unit addresses every child by name from the first date on
     idx, data, ex = w5.frames(spec)
     names = spec["names"]
     root = FixedIncomeStrategy("fi", children=w5.children(spec))
